@@ -765,6 +765,11 @@ def pbkdf2_hmac(digest: bytes, secret: bytes, salt: bytes, rounds: int, keylen=N
         # hashlib's pbkdf2 can't be used.
         return _pbkdf2_hmac_builtin(digest_info, secret, salt, rounds, keylen)
 
+    if digest_info is not lookup_hash(digest_info.name):
+        # caller passed a constructor of their own which merely reports a standard name
+        # (e.g. blake2b with a non-default digest_size); hashlib would go by the name.
+        return _pbkdf2_hmac_builtin(digest_info, secret, salt, rounds, keylen)
+
     return hashlib.pbkdf2_hmac(digest_info.name, secret, salt, rounds, keylen)
 
 
@@ -777,7 +782,7 @@ def _pbkdf2_hmac_builtin(digest_info, secret, salt, rounds, keylen):
         keylen = digest_size
     elif keylen < 1:
         raise ValueError("keylen must be at least 1")
-    keyed_hmac = compile_hmac(digest_info.name, secret)
+    keyed_hmac = compile_hmac(digest_info, secret)
     result = b""
     for idx in range(1, -(-keylen // digest_size) + 1):
         block = keyed_hmac(salt + idx.to_bytes(4, "big"))
